@@ -398,10 +398,9 @@ theorem presplit_glued_form {m c} (h : Ready m c) (x y : Char) (w : Tok) (i : Na
     (hx : x ≠ '-') (hy : y ≠ '=')
     (hfl : assoc? ['-', x] c.flags = some i) (hai : c.args[i]? = some a) (htv : a.takesValue = true) :
     presplit m ('-' :: x :: y :: w) = .ok (['-', x], [y :: w]) := by
-  have hcf : ctxFlag m ['-', x] = some a := by simp [ctxFlag, h.st, ctx_of_ready h, hfl, hai]
   have hgf : gluedFlag m ['-', x] = some a := by simp [gluedFlag, h.st, ctx_of_ready h, hfl, hai]
   have hig : isGlued m ('-' :: x :: y :: w) = true := by
-    simp [isGlued, isLongFlag, hx, hy, hcf, htv]
+    simp [isGlued, isLongFlag, hx, hy, hgf, htv]
   unfold presplit
   simp [isFlag, h.unp, hig, isLongFlag, hx, splitShort, hgf, htv]
 
